@@ -142,10 +142,30 @@ func TestVerifReload(t *testing.T) {
 			}(g)
 		}
 		baseName := func(p string) string { return filepath.Base(p) }
+		wedged := false
+		within := func(f func()) bool { // a request that is not answered within 5 s: the agent is wedged
+			if wedged {
+				return false
+			}
+			done := make(chan struct{})
+			go func() { f(); close(done) }()
+			select {
+			case <-done:
+				return true
+			case <-time.After(5 * time.Second):
+				wedged = true
+				atomic.AddInt32(&unanswered, 1)
+				return false
+			}
+		}
 		observe := func(step int) {
 			// where does a write land, and under which parameter set?
 			user := fmt.Sprintf("new%d", step)
-			if err := api.Add(user, "pw", false); err == nil {
+			var err error
+			if !within(func() { err = api.Add(user, "pw", false) }) {
+				return
+			}
+			if err == nil {
 				for name, dir := range bases {
 					if bb, err := os.ReadFile(filepath.Join(dir, user+".user")); err == nil {
 						line, _ := concrete.SplitFile(bb)
@@ -157,12 +177,18 @@ func TestVerifReload(t *testing.T) {
 				emit(map[string]interface{}{"ev": "wrote", "base": "ERROR " + err.Error(), "param": 0})
 			}
 			for set := 1; set <= 3; set++ {
-				ok, _, _, _ := api.Authenticate(fmt.Sprintf("set%d", set), "pw")
+				var ok bool
+				if !within(func() { ok, _, _, _ = api.Authenticate(fmt.Sprintf("set%d", set), "pw") }) {
+					return
+				}
 				emit(map[string]interface{}{"ev": "login", "base": baseName(st.dir.BaseDir), "set": set, "ok": ok})
 			}
 		}
 		observe(0)
 		for i, kind := range seq[1:] {
+			if wedged {
+				break
+			}
 			write(kind)
 			dk := "X" // not loadable
 			if _, ok := cfgs[kind]; ok {
